@@ -8,7 +8,11 @@ RULE = ("one evaluation = one call of Trace/Debug/Info/Warn/Error on a real Simp
         "record (level, message, attributes in order) are compared with the Lean model (level 1) and judged independently (level 2): written iff level >= "
         "threshold, nothing at LevelOff, line = own prefix + msg=<msg> + arguments in order + one line end. Sequential histories on ONE *log.Logger shared by three SimpleLoggers "
         "(different thresholds) and its owner (SetPrefix / Print in between; every pair of levels a.X; c.Y; a.X and 150 seeded histories): the bytes appended by "
-        "every SimpleLogger call are exactly its record under its own level's label, or nothing below its threshold. Property-level concurrency judgment (not a "
+        "every SimpleLogger call are exactly its record under its own level's label, or nothing below its threshold. A SlogLogger built with a context that is "
+        "cancelled / reaches its deadline afterwards, or was over before (every threshold x 5 ways x 5 levels, capturing handler and TextHandler): records logged "
+        "while it is live and after it has ended reach the handler iff level >= threshold. A SimpleLogger over a log.Logger whose writer fails for some Write calls "
+        "(first call, k in a row, every third, short writes, destination replaced by the owner, 60 seeded histories): every call at or above the threshold hands the "
+        "writer exactly its own line in one Write, also after earlier write errors; calls below never touch it. Property-level concurrency judgment (not a "
         "differential): 16 goroutines x 5000 self-describing records on ONE SimpleLogger (thresholds Trace and Info) and ONE SlogLogger: every captured line's "
         "label equals the level named in its own text, exactly the enabled records appear, once each, per-goroutine order kept. "
         "non-trivial = every evaluation; distinct by protocol line")
